@@ -305,6 +305,30 @@ class Gen:
         self.commit(oid)
         self.observe_staged(oid)
 
+    def staged_alias(self, oid):
+        """a file added in the staged version is copied inside the staged version; then one of the two paths is
+        overwritten from outside, removed or moved: the other path must keep its bytes"""
+        sc, rng = self.sc, self.rng
+        n = len(sc.steps)
+        rel1, rel2 = "al%d/one.txt" % n, "al%d/two.txt" % n
+        self.mkfile(rel1, ("alias one %d" % n).encode())
+        self.mkfile(rel2, ("alias two %d" % n).encode())
+        a = rng.choice(["al.txt", "d1/al.txt"])
+        b = rng.choice(["al-copy.txt", "d2/al-copy.txt"])
+        sc.add("cpx", "cpx %s 0 %s %s" % (hx(oid), hx(a), hx(rel1)), kind="mut", id=oid)
+        sc.add("cpi", "cpi %s - 0 %s %s" % (hx(oid), hx(b), hx(a)), kind="mut", id=oid)
+        t = rng.choice([a, b])
+        k = rng.random()
+        if k < 0.6:
+            sc.add("cpx", "cpx %s 0 %s %s" % (hx(oid), hx(t), hx(rel2)), kind="mut", id=oid)
+        elif k < 0.8:
+            sc.add("rm", "rm %s 0 %s" % (hx(oid), hx(t)), kind="mut", id=oid)
+        else:
+            sc.add("mvi", "mvi %s %s %s" % (hx(oid), hx("al-moved.txt"), hx(t)), kind="mut", id=oid)
+        self.observe_staged(oid)
+        self.commit(oid)
+        self.observe_staged(oid)
+
     def twin_create(self):
         """both clients create the same new object in their own staging areas; the first commit wins, the second
         must be refused (also without a storage layout, where the two would be stored under different roots)"""
@@ -375,6 +399,9 @@ class Gen:
             return
         if 0.10 <= r0 < 0.17:
             self.overwrite_staged(oid)
+            return
+        if 0.17 <= r0 < 0.22:
+            self.staged_alias(oid)
             return
         if self.two_clients and rng.random() < 0.35:
             sc.add("client", "client %d" % rng.randint(0, 1), kind="skipd")
